@@ -148,7 +148,7 @@ def r3_dedup(ctx):
     fd = ctx.body("melstf::state::applytx::faucet_dedup_pseudocoin", r)
     rr = q.ret_assignments(fd)
     s = sig(rr[0][2]) if rr else "?"
-    r.check(s == 'CoinID::CoinID{txhash: tmelcrypt::hash_keyed(b"fdp", $1.0), index: 0}', "key/def", "marker id = CoinID{hash_keyed(\"fdp\", txhash), 0}", "marker id = %s" % s)
+    r.check(s == 'CoinID::new(tmelcrypt::hash_keyed(b"fdp", $1.0), 0)', "key/def", "marker id = CoinID{hash_keyed(\"fdp\", txhash), 0}", "marker id = %s" % s)
 
 
 def r4_permanence(ctx):
